@@ -154,4 +154,16 @@ def feasible (base max n w : Int) : Bool :=
   else (feasCandidates base max n w).any fun s =>
     decide (0 ≤ s) && decide (s < (2 : Int) ^ n.toNat) && (Gen.retry_nextWait base max 0 true n s == w)
 
+/-! ## property monitor for one observed pause (independent of the translated `nextWait`) -/
+
+/-- does the observed pause `w` satisfy C18's wording for policy `(base, max)` (both ≥ 1), re-run number `n`?
+without jitter it must be the closed form; with jitter it must lie in `[0, min(max, base·(2^n − 1))]` and be `max` or a
+multiple of `base` -/
+def specWaitOk (base max : Int) (jitter : Bool) (n w : Int) : Bool :=
+  if n ≤ 0 then w == 0
+  else if n ≥ 63 then w == max
+  else if jitter then
+    decide (0 ≤ w) && decide (w ≤ min max (base * ((2 : Int) ^ n.toNat - 1))) && (w == max || w % base == 0)
+  else w == min max (base * (2 : Int) ^ (n - 1).toNat)
+
 end LLRP.Retry
